@@ -43,8 +43,11 @@ def configs(tier):
         out.append(("ops", cp.cfg(op, 2, 2, "thread", on_content=True,
                                   return_info=ri, pass_info=ri),
                     deep if op == "map" else mid))
+        # three files: about 640 schedules with one preemption, 2.5e5 with
+        # two (thorough, map only)
         out.append(("ops", cp.cfg(op, 3, 2, "thread", on_content=True,
-                                  return_info=ri, pass_info=ri), mid))
+                                  return_info=ri, pass_info=ri),
+                    mid if op == "map" else wide))
         out.append(("ops", cp.cfg(op, 3, 3, "thread", on_content=True,
                                   return_info=ri, pass_info=ri), wide))
         # an unreadable file turned into a warning next to readable ones
@@ -71,7 +74,7 @@ def configs(tier):
     out.append(("output", dict(n=2, workers=2, wtype="thread"), mid))
     # worker processes (map's default when output= is given) share the file
     # system only: pickled copies of the FileSets per task
-    out.append(("output", dict(n=2, workers=2, wtype="process"), mid))
+    out.append(("output", dict(n=2, workers=2, wtype="process"), wide))
     # align: two loader pools (primaries, secondaries) next to the main
     # thread that pairs their results through its cache of secondaries
     for rel in ((((0, (0, 1)), (1, (1,)))), ((0, (0,)), (1, (0, 1)))):
